@@ -153,7 +153,9 @@ impl fmt::Display for CosetTable {
 fn expanded_relator_set(relators: &Vec<FreeWord>) -> BTreeSet<FreeWord> {
     let mut rels = BTreeSet::new();
     for rel in relators {
-        rels.extend(relator_permutations(&rel));
+        if rel.len() > 0 {
+            rels.extend(relator_permutations(&rel));
+        }
     }
     rels
 }
@@ -200,7 +202,7 @@ fn scan_both_ways(table: &CosetTable, w: &FreeWord, start: usize)
     let n = w.len();
     let (head, i) = scan(table, w, start, n);
     let (tail, j) = scan_inverse(table, w, start, n - i);
-    (head, tail, n - i - j, if i < n { w[i] } else { w[0] })
+    (head, tail, n - i - j, if i < n { w[i] } else { 0 })
 }
 
 
